@@ -37,13 +37,12 @@ def run(ctx):
             return
         ubad, umism, uerr, unegz = [], [], [], []
         tops = unit_tops(u)
-        rc, wf_out, err = run_lines(ref, [str(u.ir_path)], ["wf"])
-        notes = ir_notes(u.ins)
-        modelled = wf_out == ["ok true"] and not notes
-        if not modelled:
+        mv = ModelView(u, ref)
+        d = mv.describe(u, tops)
+        if d:
             with lock:
                 stats["units_outside_model"] += 1
-                skipped.append({"unit": u.name, "why": "; ".join(notes[:5]) or "wf2 is false for the dump", "types": [name for tid, name, x in tops][:40]})
+                skipped.append(d)
         src = Sources(u, tops, rng, ref)
         tid_of = src.tid_of
         ops = []
@@ -66,26 +65,25 @@ def run(ctx):
         go = run_lines_resilient(u.gen.exe, [], lines, timeout=900)
         jl = [l.replace("conv ", "convj ", 1) for l in lines]
         jo = run_lines_resilient(u.gen.exe, [], jl, timeout=900)
-        mo = None
-        if modelled:
-            rc1, mo, err1 = run_lines(ref, [str(u.ir_path)], lines)
-            if rc1 != 0 or len(mo) != len(lines):
-                uerr.append((u.name, f"model driver failed: rc={rc1} {err1[-300:]}"))
-                mo = None
+        mo, e = model_run(ref, mv, lines, 2)
+        if e:
+            uerr.append((u.name, e))
         for i, ((l, kind), g, j) in enumerate(zip(ops, go, jo)):
             f = l.split(" ")
             n = 0 if f[5] == "-" else len(f[5]) // 2
             gf = g.split(" ")
             # the property on the implementation: TL1 -> TL2 -> TL1 gives the original bytes, JSON unchanged
             ok = g.startswith("ok ") and len(gf) == 4 and gf[1] == str(n) and gf[3] == f[5] and j == "ok"
-            if not ok:
+            if g.startswith(("panic", "crash", "driver-error")) or j.startswith(("panic", "crash", "driver-error")):
+                ubad.append((u.name, l, g + " | json: " + trunc(j, 200), crash_sig("C04", mv, u, f[2], f[3], g + j)))
+            elif not ok:
                 if mo is not None and mo[i] == g and g.startswith("ok ") and len(gf) == 4 and gf[1] == str(n) and not gf[3].startswith(("write", "read", "trail")):
                     # the model predicts exactly this loss: the only value the TL2 writer drops is a
                     # non-optional float/double field holding -0.0 (item.F != 0 is false)
                     unegz.append((u.name, l, g))
                 else:
                     ubad.append((u.name, l, g + " | json: " + trunc(j, 200), f"C04:conversion:{u.name}:{f[3]}"))
-            if mo is not None and mo[i] != g:
+            if mo is not None and mo[i] is not None and mo[i] != g:
                 umism.append((u.name, l, mo[i], g))
         with lock:
             stats["schemas"] += 1
@@ -105,7 +103,7 @@ def run(ctx):
                 for _ in range(2):
                     k = rng.randrange(len(lines))
                     samples.append({"schema": u.name, "kind": ops[k][1], "op": trunc(lines[k], 200), "go": trunc(go[k], 160),
-                                    "model": trunc(mo[k], 160) if mo else "(unit outside the model)", "json_oracle": trunc(jo[k], 80)})
+                                    "model": trunc(mo[k], 160) if mo and mo[k] is not None else "(type outside the model)", "json_oracle": trunc(jo[k], 80)})
 
     with ThreadPoolExecutor(max_workers=8) as ex:
         list(ex.map(work, units))
